@@ -117,6 +117,22 @@ def metadata_key_case():
     return None
 
 
+def hidden_constructor():
+    """a type and the generic interface of the same name are one identifier: when the type is private (on the TYPE statement) and display leaves private entities out, the
+    constructor interface is not shown either"""
+    text = ("module m\n  !! doc\n  implicit none\n  type, private :: t\n    !! type doc\n    integer :: c\n  end type t\n  interface t\n    !! UNSELECTEDCTOR doc\n    module procedure make_t\n  end interface t\n"
+            "  type :: shown\n    !! shown doc\n    integer :: d\n  end type shown\n  interface shown\n    !! shown ctor\n    module procedure make_shown\n  end interface shown\ncontains\n"
+            "  function make_t() result(r)\n    !! make doc\n    type(t) :: r\n  end function make_t\n  function make_shown() result(r)\n    !! make doc\n    type(shown) :: r\n  end function make_shown\nend module m\n")
+    proj = realrun.build_project({"src/m.f90": text}, display=["public", "protected"])
+    m = proj.modules[0]
+    got = {"types": sorted(x.name for x in m.types), "interfaces": sorted(x.name for x in m.interfaces)}
+    want = {"types": ["shown"], "interfaces": ["shown"]}
+    if got != want:
+        return {"confirmed": True, "input": {"source": text, "settings": {"display": ["public", "protected"]}}, "actual": got, "expected": want,
+                "how": "real pipeline: types and interfaces left in the module's lists after prune"}
+    return None
+
+
 def cases():
     for pd, ep, doc, inproc in itertools.product(["", "private"], ["", "private", "public"], [True, False], [False, True]):
         for display in (["public", "protected"], ["private"], ["public", "private", "protected"]):
@@ -128,7 +144,7 @@ def cases():
 
 
 def search(limit=None):
-    hit = hidden_procedure_namelist() or module_procedure_body() or metadata_key_case()
+    hit = hidden_procedure_namelist() or module_procedure_body() or metadata_key_case() or hidden_constructor()
     if hit:
         return hit
     n = 0
